@@ -169,6 +169,19 @@ def check_filter(ctx, F, cfg, type_path, acc_of, elem_ty, conv_ref, key, flag=No
         body_opt = sym.proj(N.term, S.OK, 0)
         ok_known = sym.lookup(p, body_opt)
         muts = [e for e in p.effects if e.callee not in (NEXT, conv_path)]
+        if flag:
+            # `out.flag |= <this entry is unknown>`: with the test decided on this path it is `out.flag = true`, or leaves the flag
+            # as it is (an assignment of the flag to itself is no operation)
+            kept = []
+            for e in muts:
+                if e.kind == "assign" and len(e.args) == 2 and e.args[0][0] == "field" and e.args[0][2] == flag:
+                    v = sym.resolve(p, e.args[1])
+                    if v == e.args[0]:
+                        continue
+                    if v != e.args[1]:
+                        e = S.Effect(e.kind, e.callee, (e.args[0], v), e.node, e.term, e.depth, e.loops, e.seq, e.frame, e.natoms)
+                kept.append(e)
+            muts = kept
         convs = [e for e in p.effects if e.callee == conv_path]
         r = p.result
         if p.ret_loop_depth > 0 or (r is not None and r[0] == "ctor" and r[1] == S.ERR):
